@@ -221,7 +221,9 @@ def report(prop, tier, seed, level, coverage, violations, t0, *, assumptions=(),
         'wall_s': round(time.time() - t0, 3),
         'violations': unknown,
     }
-    edir = VERIF / 'evidence'
+    # WNMC_EVIDENCE_DIR: used by tools/eval_*_wt.sh so that runs against patched scratch worktrees
+    # do not overwrite the evidence of /repo itself
+    edir = Path(os.environ.get('WNMC_EVIDENCE_DIR') or VERIF / 'evidence')
     edir.mkdir(exist_ok=True)
     (edir / f'{prop}.json').write_text(
         json.dumps(ev, indent=1, default=repr, ensure_ascii=False) + '\n')
